@@ -7,7 +7,7 @@ hooks_commits = subprocess.run(["git", "-C", "/repo", "log", "--format=%H", "--g
 CHECKS = {
  "C01": dict(
    category="exploration",
-   text="Runtime monitor: the real Client.Start is driven with ~2.5k (quick) / ~114k (thorough) generated first-stdout-lines x client configurations (per-field pools, wrappers, truncations, byte mutations, and the full cross product of protocol x certificate x multiplexing field values for every configuration) through a scripted in-process runner (and a sample through a real subprocess) under the race detector; an independent reference parser written from the statement decides, per case, whether acceptance was allowed and whether the reported protocol/version/address (also from a second Start and from ReattachConfig) equal the line; nil / typed-nil addresses, panics and Start calls outliving the hang threshold are violations. Held = held on the executions listed in the evidence, not a proof over all byte strings.",
+   text="Runtime monitor: the real Client.Start is driven with ~2.5k (quick) / ~114k (thorough) generated first-stdout-lines x client configurations (per-field pools, wrappers, truncations, byte mutations, and the full cross product of protocol x certificate x multiplexing field values for every configuration, lines with more than seven fields whose trailing field contradicts the multiplexing field) through a scripted in-process runner (and a sample through a real subprocess) under the race detector; an independent reference parser written from the statement decides, per case, whether acceptance was allowed and whether the reported protocol/version/address (also from a second Start and from ReattachConfig) equal the line; nil / typed-nil addresses, panics and Start calls outliving the hang threshold are violations. Held = held on the executions listed in the evidence, not a proof over all byte strings.",
    design_ref="DESIGN.md section 3, C01",
    note="Trusts: Go stdlib (strconv, net.Resolve*Addr, x509) inside the reference parser; the scripted runner as a faithful stand-in for a process' stdout pipe (cross-checked by the real-subprocess sample); hang threshold H=max(4*StartTimeout, StartTimeout+15s).",
    technique="runtime monitoring: reference-parser oracle over generated handshake lines, race detector on"),
@@ -55,7 +55,7 @@ CHECKS = {
    technique="runtime monitoring: id/nonce echo + health re-check oracle over sequential multiplexed establishments, schedule perturbation at hook points"),
  "C09": dict(
    category="exploration",
-   text="Runtime monitor: histories of unmatched / duplicate / late / expiry-aligned broker operations (the expiry alignment is produced deterministically by blocking the expiry goroutine at a hook point) (incl. a second dial to an id whose waiting accept was already served, an id that is announced twice after a dial to it timed out, a close that follows the plugin's server going away while an AcceptAndServe is pending, a late accept whose ack arrives while another dial is waiting) on MuxBroker, GRPCBroker and multiplexed GRPCBroker, each followed by matched pairs on fresh ids in both directions and a close; oracle: every call returns (nominal 5 s, hang threshold 40 s), unmatched calls fail, fresh pairs succeed, a final close racing with listener announcements lets every call return, no goroutine with broker frames remains after all clients are closed. The defects it found (D5, D6 stale knock, D19 leaked knock listener) are repaired; known_findings.json holds only fixed entries.",
+   text="Runtime monitor: histories of unmatched / duplicate / late / expiry-aligned broker operations (the expiry alignment is produced deterministically by blocking the expiry goroutine at a hook point) (incl. a second dial to an id whose waiting accept was already served, an id that is announced twice after a dial to it timed out, a close that follows the plugin's server going away while an AcceptAndServe is pending, a late accept whose ack arrives while another dial is waiting, and -- kind muxraw -- an in-process RPCServer whose session peer opens streams and closes them after 0..3 header bytes, with genuine Dispense+dial pairs in between) on MuxBroker, GRPCBroker and multiplexed GRPCBroker, each followed by matched pairs on fresh ids in both directions and a close; oracle: every call returns (nominal 5 s, hang threshold 40 s), unmatched calls fail, fresh pairs succeed, a final close racing with listener announcements lets every call return, no goroutine with broker frames remains after all clients are closed. The defects it found (D5, D6 stale knock, D19 leaked knock listener) are repaired; known_findings.json holds only fixed entries.",
    design_ref="DESIGN.md section 3, C09 and section 4 (D5, D6)",
    note="Bounded-progress reading of liveness; thresholds are generous so a loaded machine cannot manufacture alarms.",
    technique="runtime monitoring: bounded-progress oracle over fault histories with hook-controlled line-up, goroutine-dump leak monitor"),
@@ -103,7 +103,7 @@ CHECKS = {
    technique="runtime monitoring: external process/syscall monitor (strace) plus raw stdio and file-system observation"),
  "C14": dict(
    category="exploration",
-   text="Runtime monitor over the configuration cross product (576 cells + option conflicts + plugins that ignore PLUGIN_CLIENT_CERT + hosts that set AutoMTLS and a static TLSConfig together + raw-line plugins + cells with several versions per side and a wire protocol per version + short handshake lines without a protocol field against hosts that do not allow net/rpc; quick = seeded sample with every expectation kind, thorough = exhaustive): each cell launches a real plugin subprocess and records start error class, protocol in use, Ping, identity-tagged call, brokered callbacks in both directions, an 8 MiB response, 5 MiB responses on brokered connections, Dispense of an unknown name, process state after refusals, hangs and panics; a classification table written from the statement (MUST_WORK / MUST_FAIL_AT_START(kind) / MUST_NOT_WORK / EITHER_BUT_CLEAN) is the oracle.",
+   text="Runtime monitor over the configuration cross product (576 cells + option conflicts + plugins that ignore PLUGIN_CLIENT_CERT + hosts that set AutoMTLS and a static TLSConfig together + raw-line plugins + cells with several versions per side and a wire protocol per version + short handshake lines without a protocol field against hosts that do not allow net/rpc; quick = seeded sample with every expectation kind, thorough = exhaustive): each cell launches a real plugin subprocess and records start error class, protocol in use, Ping, identity-tagged call, brokered callbacks in both directions (with the authentication the gRPC peer reports for each brokered connection: a protected configuration must not run them in clear), an 8 MiB response, 5 MiB responses on brokered connections, Dispense of an unknown name, process state after refusals, hangs and panics; a classification table written from the statement (MUST_WORK / MUST_FAIL_AT_START(kind) / MUST_NOT_WORK / EITHER_BUT_CLEAN) is the oracle.",
    design_ref="DESIGN.md section 3, C14",
    note="Documented-unsupported combinations (AutoMTLS+TLSProvider, AutoMTLS+reattach) are only required to be clean; static TLS is configured so that both sides can act as TLS server and client (brokered connections need both roles).",
    technique="runtime monitoring: classification-table oracle over the real configuration cross product (exhaustive in thorough)"),
@@ -115,7 +115,7 @@ CHECKS = {
    technique="runtime monitoring: reference state machine + porcupine register linearizability over recorded histories"),
  "C18": dict(
    category="exploration",
-   text="Runtime monitor: seeded histories of dispenses / brokered connections in both directions / stdio / a brokered listener the plugin keeps open / plugin code announcing brokered servers from a background worker across the shutdown / a brokered id announced twice and never dialled, followed by Kill (optionally racing with listener announcements), plus in-process test-mode servers cancelled after no / one host used them, over protocol x TLS x launch method, real subprocesses with private sandboxes on both sides; after a graceful exit (cleanup marker present) the monitor lists both sandboxes for socket files and plugin-dir* directories and compares a goroutine dump of the host (filtered on go-plugin frames) with the count before the case, polling up to 10 s.",
+   text="Runtime monitor: seeded histories of dispenses / brokered connections in both directions / stdio / a brokered listener the plugin keeps open / plugin code announcing brokered servers from a background worker across the shutdown / a brokered id announced twice and never dialled / a host-side Accept nobody dials / the plugin killed while the host's multiplexed listener is between knock acknowledgement and hand-over, followed by Kill (optionally racing with listener announcements), plus in-process test-mode servers cancelled after no / one host used them, over protocol x TLS x launch method, real subprocesses with private sandboxes on both sides; after a graceful exit (cleanup marker present) the monitor lists both sandboxes for socket files and plugin-dir* directories and compares a goroutine dump of the host (filtered on go-plugin frames) with the count before the case, polling up to 10 s.",
    design_ref="DESIGN.md section 3, C18",
    note="One case at a time per host process so that goroutines are attributable; only graceful exits are judged.",
    technique="runtime monitoring: file-system listing + goroutine-dump leak monitor after graceful shutdown"),
